@@ -1140,6 +1140,12 @@ func (w *worker) runCombine(ctx context.Context, task *Task, taskStats *stats.Ma
 	w.mu.Unlock()
 
 	defer func() {
+		if e := recover(); e != nil {
+			// The (user-supplied) combiner panicked.
+			stack := debug.Stack()
+			err = fmt.Errorf("panic while evaluating slice: %v\n%s", e, string(stack))
+			err = maybeTaskFatalErr{errors.E(err, errors.Fatal)}
+		}
 		w.mu.Lock()
 		w.combinerStates[combineKey]--
 		w.mu.Unlock()
@@ -1201,10 +1207,7 @@ func (w *worker) runCombine(ctx context.Context, task *Task, taskStats *stats.Ma
 				}
 			}
 
-			flushed := pcomb.Compact()
-			combErr := combiner.Combine(ctx, flushed)
-			combiners[p] <- combiner
-			if combErr != nil {
+			if combErr := combineShared(ctx, combiners[p], combiner, pcomb.Compact()); combErr != nil {
 				return combErr
 			}
 		}
@@ -1217,13 +1220,18 @@ func (w *worker) runCombine(ctx context.Context, task *Task, taskStats *stats.Ma
 	// Flush the remainder.
 	for p, comb := range partitionCombiner {
 		combiner := <-combiners[p]
-		err := combiner.Combine(ctx, comb.Compact())
-		combiners[p] <- combiner
-		if err != nil {
+		if err := combineShared(ctx, combiners[p], combiner, comb.Compact()); err != nil {
 			return err
 		}
 	}
 	return nil
+}
+
+// combineShared combines f into the shared combiner c, which was received
+// from ch, and returns c to ch, also when the (user-supplied) combiner panics.
+func combineShared(ctx context.Context, ch chan *combiner, c *combiner, f frame.Frame) error {
+	defer func() { ch <- c }()
+	return c.Combine(ctx, f)
 }
 
 func (w *worker) Stats(ctx context.Context, _ struct{}, values *stats.Values) error {
